@@ -19,7 +19,7 @@ func TestVF_C20_KeyGen(t *testing.T) {
 	rec := vfh.New(t, "C20")
 	defer rec.Flush()
 	shared := vfk.Toy(0, 4, true)
-	reps := rec.N(3, 12)
+	reps := rec.N(3, 40)
 	for rep := 0; rep < reps; rep++ {
 		if !rec.Mine(rep) {
 			continue
